@@ -217,7 +217,8 @@ pub fn c02(out: &mut Out, tier: &str, rng: &mut Rng) {
     }
     // a high order at huge counts (powers of the counts overflow long before the weights n_a/n, n_b/n do)
     huge_counts::<M34>(out, &[1.0, 2.0, 4.0, 8.0], &[3.0, 5.0]);
-    sampled_trees::<M34>(out, tier, rng, &allow_all, -4.0, 4.0);
+    // (orders above 16 are exercised for the code paths only: their entries are compared with the model, not with an envelope)
+    sampled_trees::<M34>(out, tier, rng, &|s: &str| { let p: usize = s.trim_start_matches(|c: char| c.is_alphabetic()).parse().unwrap_or(0); p <= 16 }, -4.0, 4.0);
     sampled_trees::<average::Mean>(out, tier, rng, &allow_all, -25.0, 25.0);
     sampled_trees::<average::Variance>(out, tier, rng, &allow_all, -25.0, 25.0);
     sampled_trees::<average::Skewness>(out, tier, rng, &allow_all, -25.0, 25.0);
